@@ -3,7 +3,9 @@ package c03
 import (
 	"fmt"
 	"math/rand"
+	"os"
 	"strconv"
+	"strings"
 )
 
 // ---------------------------------------------------------------------------------------------
@@ -29,7 +31,34 @@ var (
 	// F-C03-import-url-function: @import url("x") (url function with a quoted string) is ignored;
 	// only the string and the unquoted url(x) forms are generated.
 	excludeImportURLFunction = true
+	// F-C03-media-attr-case: <style media="PRINT"> is compared case-sensitively.
+	excludeMediaAttrCase = true
 )
+
+// Development aid: VERIF_C03_INCLUDE=all (or a comma-separated list of style-attr, nested-order,
+// nested-badsel, nested-list, import-after-empty-rule, import-url-function, media-attr-case) brings
+// the excluded sub-domains back without editing this file, to validate a repair on a scratch copy
+// of the repository.  The committed checks never set it.
+func init() {
+	v := os.Getenv("VERIF_C03_INCLUDE")
+	if v == "" {
+		return
+	}
+	flags := map[string]*bool{
+		"style-attr": &excludeStyleAttrVsID, "nested-order": &excludeNestedOwnOrder, "nested-badsel": &excludeNestedBadSel,
+		"nested-list": &excludeNestedRelativeList, "import-after-empty-rule": &excludeImportAfterEmptyRule,
+		"import-url-function": &excludeImportURLFunction, "media-attr-case": &excludeMediaAttrCase,
+	}
+	for _, k := range strings.Split(v, ",") {
+		if k == "all" {
+			for _, f := range flags {
+				*f = false
+			}
+		} else if f := flags[strings.TrimSpace(k)]; f != nil {
+			*f = false
+		}
+	}
+}
 
 // ---------------------------------------------------------------------------------------------
 // selector construction helpers
